@@ -261,22 +261,23 @@ func generate(gcfgs []chartconfig.ChartConfig, paddings map[string]padding) (*te
 			if err != nil {
 				return nil, fmt.Errorf("listing versions for %q: %v", p.Name, err)
 			}
-			// Filter proxy versions in place.
-			i := 0
 			for _, v := range versions {
 				if !semver.IsValid(v) {
 					return nil, fmt.Errorf("invalid semver %q returned from proxy for %q", v, p.Name)
-				}
-				if minVersion == "" || semver.Compare(minVersion, v) <= 0 {
-					versions[i] = v
-					i++
 				}
 			}
 			// Look up paddings based on program name.
 			if _, ok := paddings[p.Name]; !ok {
 				return nil, fmt.Errorf("padding not defined for program %q", p.Name)
 			}
-			p.Versions = padVersions(versions[:i], prereleasesForProgram(p.Name), paddings[p.Name])
+			// Pad from the latest known release, then apply the minimum version:
+			// if the minimum is newer than every known release, padding must
+			// still start from the latest release, not from v0.0.0.
+			for _, v := range padVersions(versions, prereleasesForProgram(p.Name), paddings[p.Name]) {
+				if minVersion == "" || semver.Compare(minVersion, v) <= 0 {
+					p.Versions = append(p.Versions, v)
+				}
+			}
 		}
 		ucfg.Programs = append(ucfg.Programs, p)
 	}
